@@ -24,6 +24,7 @@ def run(tier):
     for name, exe in sorted(ex.items()):
         variant = name.split("-", 1)[1]
         core.run_driver(rep, exe, "thorough" if tier != "quick" else "quick", variant, levels=QUICK if tier == "quick" else THOROUGH[variant], hang=30 if tier == "quick" else 120)
+    core.reclassify_self_referential_notes(rep)
     core.confirm_violations(rep, ex)
     return rep.finish()
 
